@@ -25,9 +25,13 @@ def RoundTrips (p : PduDesc) : Prop :=
         dec.get? ft.1 = (if p.fin = .withLength ∧ ft.1 = lf then some (.num bs.length)
                          else (norm its r).get? ft.1)
 
-/-- PDU types for which the pinned code is *not* an inverse pair (known findings, see
-    known-findings.json): the SMGP message id is written raw and read back hex-expanded. -/
-def exceptions : List String := ["smgp30.Deliver", "smgp30.SubmitResp"]
+/-- PDU types outside the reflective theorems.  Two for which the pinned code is *not* an inverse pair
+    (known findings, see known-findings.json): the SMGP message id is written raw and read back
+    hex-expanded.  Two whose decoder has a conditional body (SMPP 3.4 §4.1.2, §4.4.2: a response with a
+    non-zero command_status has no body; the decoder returns early on a bare header): the statement
+    `stopIfAbsent` is interpreted faithfully by the model (`DecOp.run`) and compared with the code on
+    every run, but the round-trip / fit / truncation theorems are proved for layouts without it. -/
+def exceptions : List String := ["smgp30.Deliver", "smgp30.SubmitResp", "smpp34.BindResp", "smpp34.SubmitSmResp"]
 
 /-- per-run obligation: the checker accepts every regenerated layout outside the exceptions -/
 theorem layouts_checked :
@@ -84,6 +88,7 @@ theorem EncOp.run_sticky (op : EncOp) (r : Rec) (w : Writer) (e : PErr) (hw : w.
   case repCount f c n => split at h <;> simp at h; subst h; exact writeRep_sticky w e hw _ _
   case assignIf c as => split at h <;> simp at h <;> subst h <;> rfl
   case unsupported pos => simp at h
+  case hexFixed f n => split at h <;> simp at h; subst h; simp [Writer.writeFixed, hw]
   all_goals (simp at h; subst h)
   all_goals first
     | rfl
